@@ -47,7 +47,10 @@ FORM_STEPS = ["cfd", "cfd", "cfd_scaled", "cfd_complex", "expand_derivatives", "
 EXPR_STEPS = ["abs", "absabs", "conj", "real", "index0", "neg", "addself", "mul2", "T", "grad", "expand_derivatives", "lowering",
               "derivatives", "replace", "eq", "hash", "str", "sorted", "variable", "diff", "degree", "rct", "renumber"]
 MDS = [{}, {"quadrature_degree": 2}, {"quadrature_degree": 3, "scheme": "default"}, {"estimated_polynomial_degree": 2},
-       {"quadrature_degree": 2, "estimated_polynomial_degree": 5}, {"w": {"__array__": [5, 1, None, 0]}}]
+       {"quadrature_degree": 2, "estimated_polynomial_degree": 5}, {"w": {"__array__": [5, 1, None, 0]}},
+       # list / nested values (a custom quadrature rule handed over as python lists)
+       {"quadrature_rule": "custom", "points": [[0.25, 0.25], [0.5, 0.25]], "weights": [0.16666666666666666, 0.3333333333333333]},
+       {"opts": {"levels": [1, 2, 3], "tol": 0.1234567890123}, "tags": ["a", "b"]}]
 
 
 @st.composite
@@ -125,7 +128,7 @@ def _freeze(md):
     if isinstance(md, dict):
         return tuple(sorted((k, _freeze(v)) for k, v in md.items()))
     if isinstance(md, (list, tuple)):
-        return tuple(_freeze(v) for v in md)
+        return (type(md).__name__,) + tuple(_freeze(v) for v in md)
     if isinstance(md, np.ndarray):
         return ("array", md.shape, md.tobytes())
     return md
